@@ -326,7 +326,7 @@ def parallel(ctx, chi, rng, n_points=4):
 
 def run(ctx):
     chi = core.import_chi()
-    n = 60 if ctx.tier == 'quick' else 600
+    n = 60 if ctx.tier == 'quick' else 3000
     for i in range(n):
         rng = ctx.sub_rng(i)
         z = Zoo(chi, rng)
